@@ -116,11 +116,15 @@ func (c *Curve) DecodeSEC1(b []byte) (Point, Issue, error) {
 // Pasta (pasta_curves crate / halo2 "GroupEncoding" and "UncompressedEncoding")
 // ---------------------------------------------------------------------------------------------
 
+func (c *Curve) isPasta() bool {
+	return c.Kind == WeierstrassFp && (c.P.Cmp(pallas.P) == 0 || c.P.Cmp(vesta.P) == 0)
+}
+
 // EncodePasta is the encoding of the reference implementation of the Pasta curves (the Rust
 // crate pasta_curves): compressed = 32 bytes little-endian x with the parity of y in bit 255,
 // identity = 32 zero bytes; uncompressed = x ‖ y little-endian, identity = 64 zero bytes.
 func (c *Curve) EncodePasta(p Point, compressed bool) []byte {
-	if c != pallas && c != vesta {
+	if !c.isPasta() {
 		panic("refcurve: EncodePasta on " + c.Name)
 	}
 	if p.Inf {
@@ -140,7 +144,7 @@ func (c *Curve) EncodePasta(p Point, compressed bool) []byte {
 // DecodePasta decodes 32 (compressed) or 64 (uncompressed) bytes. Errors: ErrLength,
 // ErrNotOnCurve. IssueRange: coordinate ≥ p (reduced).
 func (c *Curve) DecodePasta(b []byte) (Point, Issue, error) {
-	if c != pallas && c != vesta {
+	if !c.isPasta() {
 		panic("refcurve: DecodePasta on " + c.Name)
 	}
 	var iss Issue
